@@ -18,7 +18,7 @@ Tie (model <-> code), on the read-only tail of every history, for every strategy
   * after each read the invariant the proof rests on (`Coherent`: every loaded value / item / count / absent entry agrees with the
     database) is evaluated on the WHOLE real session.
 """
-import itertools, json, os, random, shutil, sqlite3
+import itertools, json, os, random, shutil, sqlite3, traceback
 from pony.orm import Database, Required, Optional, Set, PrimaryKey, db_session, select, commit, rollback, flush
 from pony.orm import core
 import ponyutil
@@ -473,8 +473,9 @@ COUNT_WHAT = ('after a FLUSH of a changed many-to-many collection the second sid
 
 class Tie(object):
     """snapshot / driver requests / coherence check for the read-only tail of one run"""
-    def __init__(self, ctx, schema, strategy):
+    def __init__(self, ctx, schema, strategy, population=None, hist=None, tail=0):
         self.ctx = ctx; self.schema = schema; self.strategy = strategy
+        self.population = population; self.hist = hist; self.tail = tail; self.done = []; self.probes = 0      # the reads of the tail executed so far
         self.requests = []        # (request, real answer, real how, real set after, description)
         self.ok = all(e['pk'] == 'int' and not e.get('sub') for e in schema['ents'])
     def oid(self, e, pk): return e * 1000 + pk
@@ -555,8 +556,34 @@ class Tie(object):
                 else:
                     self.ctx.divergence('the real SetData disagrees with the database (model invariant Coherent)', {'schema': self.schema, 'strategy': self.strategy, 'after': op, 'obj': o, 'attr': c},
                                         model=truth, impl=[items, full, count, absent])
+                    if self.probes < 3:
+                        self.probes += 1
+                        self.probe(w, op, o, attr, truth, None)
+    def probe(self, w, op, o, attr, truth, kind_hint):
+        """a coherence failure of the real session is turned into what a program OBSERVES: the public read of the offending collection in this
+        read-only session over an unchanged database, against the database"""
+        cls = w.classes[o // 1000]
+        try:
+            obj = cls.get(id=o % 1000)
+            wrapper = getattr(obj, attr.name)
+            seen = {'count': wrapper.count(), 'is_empty': wrapper.is_empty(), 'items': sorted(self.oid(w.classes.index(type(x)), x.id) for x in wrapper)}
+        except Exception as e:
+            seen = {'raised': type(e).__name__}
+        exp = {'count': len(truth), 'is_empty': not truth, 'items': truth}
+        if seen != exp:
+            e = w.classes.index(cls)
+            reads = [['count', e, o % 1000, attr.name], ['empty', e, o % 1000, attr.name], ['coll', e, o % 1000, attr.name]]
+            relkind = 'm2m' if attr.reverse.is_collection else 'o2m'
+            self.ctx.violation('in a read-only session over an unchanged database a collection read through the public API disagrees with the database after the loading '
+                               'actions of this strategy (count / is_empty / contents): the data observed depends on what was loaded before',
+                               {'schema': self.schema, 'population': self.population, 'history': (self.hist or [])[:self.tail] + self.done + reads, 'strategy': self.strategy,
+                                'owner': o, 'collection': attr.name}, observed=seen, expected=exp,
+                               key='coherence:%s:%s:%s' % (self.strategy, relkind, '+'.join(k for k in exp if seen.get(k) != exp[k]) or 'raised'))
+            return True
+        return False
     def op(self, w, op):
         """execute one read with the model request prepared from the state before it"""
+        self.done.append(list(op))
         k = op[0]
         if self.ok and k == 'nav':
             try:
@@ -564,7 +591,9 @@ class Tie(object):
                 t = None if o0 is None else getattr(o0, op[3])
             except Exception: t = None
             if t is None: return exec_op(w, op)
+            self.done.pop()
             r = self.op(w, ['attr', w.eidx(t), w.pkof(t), op[4]])        # the target is in the identity map: fetch() finds it without a query
+            self.done[-1] = list(op)
             return ['ok', r[1]] if r[0] == 'ok' else r
         if not self.ok or k not in ('attr', 'coll', 'count', 'empty', 'len', 'contains'):
             r = exec_op(w, op)
@@ -721,7 +750,7 @@ def run_all(ctx, schema, population, hist, tail, base, with_tie=True):
             ctx.count('lazyref-not-compared:lazy-reference-defect-present'); continue
         tie = None
         if with_tie:
-            t = Tie(ctx, schema, st); ties.append(t)
+            t = Tie(ctx, schema, st, population, hist, tail); ties.append(t)
             tie = {'start': tail, 'begin': t.begin, 'op': t.op}
         logs[st], sel[st] = run_history(schema, population, hist, st, base, tie)
     return logs, sel, ties
@@ -871,7 +900,15 @@ def run(ctx):
                 ctx.count('population-rejected')
             else: continue
             hist, tail = gen_history(rng, schema, rng.choice([6, 12, 20]))
-            logs, sel, ties = run_all(ctx, schema, population, hist, tail, base)
+            try:
+                logs, sel, ties = run_all(ctx, schema, population, hist, tail, base)
+            except Exception as e:
+                # the harness itself could not finish this history on this tree (an exception escaped Pony in a place the harness reads internal state)
+                ctx.count('history-aborted')
+                ctx.divergence('the harness could not complete a history: %s: %s' % (type(e).__name__, str(e)[:200]), {'schema': schema, 'population': population, 'history': hist},
+                               model='history completes', impl=traceback.format_exc()[-600:])
+                del PENDING[:]; del LOADERS[:]
+                continue
             ctx.case({'schema': schema, 'history': hist[:5], 'len': len(hist)}, kind='oracle:five-strategies')
             for op, r in zip(hist, logs['default']):
                 ctx.count('op:' + op[0]); ctx.count('outcome:' + r[0])
